@@ -224,18 +224,16 @@ func init() {
 			// the drain notification: a non-blocking send on writeNotify with writePending cleared, in pop itself or in a helper it calls
 			wn = c.field("Association", "writeNotify")
 			var notifySends []ssa.Instruction
-			for _, g := range append([]*ssa.Function{pop}, calleesOneLevel(c.P, pop)...) {
-				forEachInstr(g, func(in ssa.Instruction) {
-					if sel, ok := in.(*ssa.Select); ok && !sel.Blocking {
-						for _, st := range sel.States {
-							if st.Dir == types.SendOnly && IsLoadOf(wn)(st.Chan) {
-								notifySends = append(notifySends, in)
-							}
+			forEachInstrDeep(c.P, pop, 2, func(in ssa.Instruction) {
+				if sel, ok := in.(*ssa.Select); ok && !sel.Blocking {
+					for _, st := range sel.States {
+						if st.Dir == types.SendOnly && IsLoadOf(wn)(st.Chan) {
+							notifySends = append(notifySends, in)
 						}
 					}
-				})
-			}
-			c.Check(len(notifySends) == 1, "drain-notifies", c.P.Pos(pop.Pos()), "the writer notifies blocked writers when the pending queue drains", fmt.Sprintf("%d drain notification sites", len(notifySends)))
+				}
+			})
+			c.Check(len(notifySends) >= 1, "drain-notifies", c.P.Pos(pop.Pos()), "the writer notifies blocked writers when the pending queue drains", fmt.Sprintf("%d drain notification sites", len(notifySends)))
 			for _, ns := range notifySends {
 				c.Dom("drain-notifies:blocking", ns, BoolCond(IsLoadOf(bw), true), "a.blockWrite")
 				c.Dom("drain-notifies:empty", ns, CmpCond(token.EQL, IsCallOf(c.Fn("pendingQueue.size")), IsConstInt(0)), "pendingQueue.size() == 0")
